@@ -6,98 +6,18 @@
    every symbol index to what the model says (ReqOk / DefOk: low 15 bits select the record, bit 15 is
    the hidden flag, None when unlisted, never a record beyond the table) and emits each object for
    replay through the stand-alone SymbolVersionTable::new. *)
-EXTENDS SymVer, Abi, Json
+EXTENDS VerBuild, Json
 CONSTANTS Encs, Layouts, IdxBases      \* IdxBases: offsets added to every version index >= 2 (numeric windows)
-
-EncOf(k) == CASE k = 1 -> <<32, TRUE>> [] k = 2 -> <<32, FALSE>> [] k = 3 -> <<64, TRUE>> [] k = 4 -> <<64, FALSE>>
-W32(n, l) == IF l THEN W4(n) ELSE Rev(W4(n))
-W16(n, l) == IF l THEN W2(n) ELSE Rev(W2(n))
-RECURSIVE CatAll(_, _)
-CatAll(seqs, n) == IF n = 0 THEN <<>> ELSE CatAll(seqs, n - 1) \o seqs[n]
-
-\* names are single distinct letters; the string table is "\0a\0b\0..." so name k sits at offset 2k-1
-Nm(k) == <<96 + k>>
-NmOff(k) == 2 * k - 1
-StrTabB == <<0>> \o CatAll([k \in 1..14 |-> <<96 + k, 0>>], 14)
-
-\* ---- models: nNeeds files with na1 / na2 auxes, nDefs definitions with nd1 / nd2 names ----------------
-\* need aux j of file i gets index 2 + (number of earlier auxes) + nDefs ; def d gets index 1 + d  (1-based d)
-Model(nn, na1, na2, nd, dn1, dn2, vs, ib) ==
-    LET NA(i) == IF i = 1 THEN na1 ELSE na2
-        DN(d) == IF d = 1 THEN dn1 ELSE dn2
-        auxIdx(i, j) == ib + 1 + nd + (IF i = 1 THEN 0 ELSE na1) + j
-        needs == [i \in 1..nn |-> [file |-> Nm(i),
-                                   auxs |-> [j \in 1..NA(i) |-> [name |-> Nm(2 + 2 * i + j), hash |-> W4(1000 * i + j),
-                                                                 flags |-> W2(j), other |-> W2(auxIdx(i, j))]]]]
-        defs == [d \in 1..nd |-> [ndx |-> W2(ib + 1 + d), flags |-> W2(d - 1), hash |-> W4(77 * d),
-                                  names |-> [k \in 1..DN(d) |-> Nm(8 + 2 * d + k)]]]
-    IN [versym |-> vs, needs |-> needs, defs |-> defs]
-
-\* positions of the records: layout 1 = contiguous, 2 = all records first then all auxes
-NeedPos(m, lay) ==
-    LET nn == Len(m.needs)
-        NA(i) == Len(m.needs[i].auxs)
-        recAt(i) == IF lay = 2 THEN 16 * (i - 1)
-                    ELSE 16 * (i - 1) + 16 * (IF i > 1 THEN NA(1) ELSE 0)
-        auxAt(i, j) == IF lay = 2 THEN 16 * nn + 16 * ((IF i > 1 THEN NA(1) ELSE 0) + j - 1)
-                       ELSE recAt(i) + 16 * j
-    IN [rec |-> [i \in 1..nn |-> recAt(i)], aux |-> [i \in 1..nn |-> [j \in 1..NA(i) |-> auxAt(i, j)]],
-        total |-> 16 * nn + 16 * ((IF nn >= 1 THEN NA(1) ELSE 0) + (IF nn >= 2 THEN NA(2) ELSE 0))]
-
-PutAt(b, off, w) == [i \in 1..Len(b) |-> IF i > off /\ i <= off + Len(w) THEN w[i - off] ELSE b[i]]
-RECURSIVE PutAll(_, _, _)
-PutAll(b, items, k) == IF k > Len(items) THEN b ELSE PutAll(PutAt(b, items[k][1], items[k][2]), items, k + 1)
-
-NmIdxOf(n) == n[1] - 96
-Wd4(w, l) == IF l THEN w ELSE Rev(w)
-Wd2(w, l) == IF l THEN w ELSE Rev(w)
-EncNeeds(m, lay, l) ==
-    LET p == NeedPos(m, lay)
-        nn == Len(m.needs)
-        recs == [i \in 1..nn |->
-                   <<p.rec[i], W16(1, l) \o W16(Len(m.needs[i].auxs), l) \o W32(NmOff(NmIdxOf(m.needs[i].file)), l)
-                               \o W32(IF Len(m.needs[i].auxs) = 0 THEN 0 ELSE p.aux[i][1] - p.rec[i], l)
-                               \o W32(IF i < nn THEN p.rec[i + 1] - p.rec[i] ELSE 0, l)>>]
-        auxes == CatAll([i \in 1..nn |->
-                   [j \in 1..Len(m.needs[i].auxs) |->
-                      LET a == m.needs[i].auxs[j]
-                      IN <<p.aux[i][j], Wd4(a.hash, l) \o Wd2(a.flags, l) \o Wd2(a.other, l) \o W32(NmOff(NmIdxOf(a.name)), l)
-                                        \o W32(IF j < Len(m.needs[i].auxs) THEN p.aux[i][j + 1] - p.aux[i][j] ELSE 0, l)>>]], nn)
-    IN PutAll([i \in 1..p.total |-> 238], recs \o auxes, 1)
-
-DefPos(m, lay) ==
-    LET nd == Len(m.defs)
-        DN(d) == Len(m.defs[d].names)
-        recAt(d) == IF lay = 2 THEN 20 * (d - 1) ELSE 20 * (d - 1) + 8 * (IF d > 1 THEN DN(1) ELSE 0)
-        auxAt(d, k) == IF lay = 2 THEN 20 * nd + 8 * ((IF d > 1 THEN DN(1) ELSE 0) + k - 1) ELSE recAt(d) + 20 + 8 * (k - 1)
-    IN [rec |-> [d \in 1..nd |-> recAt(d)], aux |-> [d \in 1..nd |-> [k \in 1..DN(d) |-> auxAt(d, k)]],
-        total |-> 20 * nd + 8 * ((IF nd >= 1 THEN DN(1) ELSE 0) + (IF nd >= 2 THEN DN(2) ELSE 0))]
-EncDefs(m, lay, l) ==
-    LET p == DefPos(m, lay)
-        nd == Len(m.defs)
-        recs == [d \in 1..nd |->
-                   LET x == m.defs[d]
-                   IN <<p.rec[d], W16(1, l) \o Wd2(x.flags, l) \o Wd2(x.ndx, l) \o W16(Len(x.names), l) \o Wd4(x.hash, l)
-                                  \o W32(IF Len(x.names) = 0 THEN 0 ELSE p.aux[d][1] - p.rec[d], l)
-                                  \o W32(IF d < nd THEN p.rec[d + 1] - p.rec[d] ELSE 0, l)>>]
-        auxes == CatAll([d \in 1..nd |->
-                   [k \in 1..Len(m.defs[d].names) |->
-                      <<p.aux[d][k], W32(NmOff(NmIdxOf(m.defs[d].names[k])), l)
-                                     \o W32(IF k < Len(m.defs[d].names) THEN p.aux[d][k + 1] - p.aux[d][k] ELSE 0, l)>>]], nd)
-    IN PutAll([i \in 1..p.total |-> 238], recs \o auxes, 1)
 
 VARIABLE c
 Init == c = [stage |-> 0]
-\* versym entries: local, global, each listed index, an unlisted one; plain and hidden
-VsPool(nd, ntot, ib) == LET base == {0, 1} \cup ((ib + 2)..(ib + 1 + nd + ntot)) \cup {ib + 1 + nd + ntot + 3}
-                    IN { W2(v) : v \in base } \cup { <<v % 256, 128 + (v \div 256)>> : v \in base }
 Next == \/ c.stage = 0 /\ \E k \in Encs, lay \in Layouts, nn \in 0..2, nd \in 0..2, ib \in IdxBases : c' = [stage |-> 1, enc |-> k, lay |-> lay, nn |-> nn, nd |-> nd, ib |-> ib]
         \/ c.stage = 1 /\ \E na1 \in (IF c.nn >= 1 THEN 0..2 ELSE {0}), na2 \in (IF c.nn >= 2 THEN 1..2 ELSE {0}),
                              dn1 \in (IF c.nd >= 1 THEN 1..2 ELSE {0}), dn2 \in (IF c.nd >= 2 THEN 1..2 ELSE {0}) :
                              c' = [c EXCEPT !.stage = 2] @@ [na1 |-> na1, na2 |-> na2, dn1 |-> dn1, dn2 |-> dn2]
 
-Class == EncOf(c.enc)[1]
-L == EncOf(c.enc)[2]
+Class == VEncOf(c.enc)[1]
+L == VEncOf(c.enc)[2]
 \* one symbol per pool entry so that every kind of index is queried
 VsSeq == LET P == VsPool(c.nd, c.na1 + c.na2, c.ib)
              RECURSIVE S(_)
@@ -105,8 +25,8 @@ VsSeq == LET P == VsPool(c.nd, c.na1 + c.na2, c.ib)
          IN S(P)
 M == Model(c.nn, c.na1, c.na2, c.nd, c.dn1, c.dn2, VsSeq, c.ib)
 NeedB == EncNeeds(M, c.lay, L)
-DefB == EncDefs(M, c.lay, L)
-VersymB == CatAll([i \in 1..Len(VsSeq) |-> Wd2(VsSeq[i], L)], Len(VsSeq))
+DefB == EncDefs(M, c.lay, L, 0)
+VersymB == VCat([i \in 1..Len(VsSeq) |-> VWd2(VsSeq[i], L)], Len(VsSeq))
 NeedArg == IF c.nn = 0 THEN <<>> ELSE [buf |-> NeedB, count |-> W8(c.nn), str |-> StrTabB]
 DefArg == IF c.nd = 0 THEN <<>> ELSE [buf |-> DefB, count |-> W8(c.nd), str |-> StrTabB]
 
